@@ -8,12 +8,10 @@ import (
 	"encoding/json"
 	"fmt"
 	"math/big"
-	"os"
 	"regexp"
 	"runtime/debug"
 	"strings"
 	"syscall"
-	"time"
 
 	"github.com/lianxiangcloud/linkchain/libs/common"
 	dbm "github.com/lianxiangcloud/linkchain/libs/db"
@@ -44,21 +42,53 @@ func init() {
 		},
 		Cases: func(tier string) int {
 			if tier == "thorough" {
-				return 400000
+				return 600000
 			}
-			return 12000
+			return 20000
 		},
 		Batch: func(tier string) int { return 50 },
 		Run:   run,
 		Floors: func(tier string) map[string]int64 {
-			return floors
+			f := map[string]int64{}
+			for k, v := range floors {
+				if tier == "thorough" {
+					v *= 20 // 30x the cases
+				}
+				f[k] = v
+			}
+			return f
 		},
 		PanicIsViolation: true,
 		Init:             initChild,
 	})
 }
 
-var floors = map[string]int64{}
+// roughly half of the minimum observed over VERIF_SEED=1..5 (quick tier, 20000 cases)
+var floors = map[string]int64{
+	"steps":                                   350000000,
+	"second_runs_compared":                    9900,
+	"frames_failed_checked":                   190000,
+	"frames_failed_checked_after_writes":      110000,
+	"frames_failed_checked_with_value":        19000,
+	"frames_succeeded":                        100000,
+	"top_level_failures_checked_after_writes": 5000,
+	"top_ok":                     1500,
+	"cases_reaching_depth_limit": 100,
+	"gas_zero_cases":             590,
+	"shape_uniform":              1150,
+	"op_CALL":                    140000,
+	"op_CALLCODE":                90000,
+	"op_DELEGATECALL":            99000,
+	"op_STATICCALL":              39000,
+	"op_CREATE":                  38000,
+	"op_CREATE2":                 25000,
+	"op_SELFDESTRUCT":            1600,
+	"op_SSTORE":                  170000,
+	"op_LOG":                     74000,
+	"op_ISSUE":                   84000,
+	"op_TRANSFERTOKEN":           40000,
+	"op_BALANCETOKEN":            5600,
+}
 
 func initChild() {
 	core.QuietLogs()
@@ -315,7 +345,7 @@ func execute(c *core.Ctx, w *world, heavy bool) *outcome {
 		}
 	}
 	if !o.aborted {
-		fin := takeSnapshot(st, probeSetFor(mon, w))
+		fin := takeSnapshot(st, newProbeSet(w)) // the fixed probe set: identical in both runs
 		o.Snap = fin.hash()
 		o.Refund = st.GetRefund()
 		lh := sha256.New()
@@ -341,20 +371,9 @@ func execute(c *core.Ctx, w *world, heavy bool) *outcome {
 	return o
 }
 
-// probeSetFor: the final snapshot must use the same probe set in both runs, so it is the fixed one.
-func probeSetFor(m *monitor, w *world) *probeSet {
-	return newProbeSet(w)
-}
-
 // ---------------------------------------------------------------- the case
 
 func run(c *core.Ctx) {
-	t0 := time.Now()
-	defer func() {
-		if d := time.Since(t0); d > 500*time.Millisecond && os.Getenv("C20_SLOW") != "" {
-			fmt.Fprintf(os.Stderr, "SLOW case %d: %v\n", c.Index, d)
-		}
-	}()
 	w := genWorld(c.Rng)
 	c.Count("shape_"+w.Shape, 1)
 	c.Count("entry_"+w.Kind, 1)
@@ -380,13 +399,20 @@ func run(c *core.Ctx) {
 	c.Count("snapshots", int64(m.snapshots))
 	c.Count("decimals_probe_frames", int64(m.probes))
 	c.Count("decimals_probe_frames_uncharged", int64(m.probesUncharged))
+	c.Count("decimals_probe_frames_uncharged_nested", int64(m.probesNested))
 	c.Count("decimals_probe_steps_uncharged", int64(m.probeSteps))
 	c.Max("depth", int64(m.maxDepth))
+	if m.maxDepth >= 1025 {
+		c.Count("cases_reaching_depth_limit", 1)
+	}
+	c.Count("frames_failed_checked_after_writes", int64(m.failedAfterWrites))
+	c.Count("frames_failed_checked_with_value", int64(m.failedWithValue))
+	c.Count("calls_and_creates_with_value", int64(m.valueCalls))
 	c.Count("frames", int64(m.nframes))
 	if m.truncated {
 		c.Count("cases_truncated_by_work_cap", 1)
 	}
-	var calls, creates, tokenOps, sstores, selfdestructs, logs int64
+	var calls, creates, sstores, selfdestructs, logs int64
 	for _, op := range []evm.OpCode{evm.CALL, evm.CALLCODE, evm.DELEGATECALL, evm.STATICCALL} {
 		calls += int64(m.ops[byte(op)])
 		c.Count("op_"+op.String(), int64(m.ops[byte(op)]))
@@ -395,7 +421,6 @@ func run(c *core.Ctx) {
 	c.Count("op_CREATE", int64(m.ops[byte(evm.CREATE)]))
 	c.Count("op_CREATE2", int64(m.ops[byte(evm.CREATE2)]))
 	for _, op := range []evm.OpCode{evm.ISSUE, evm.TRANSFERTOKEN, evm.BALANCETOKEN, evm.CALLTOKENADDRESS, evm.CALLTOKENVALUE} {
-		tokenOps += int64(m.ops[byte(op)])
 		c.Count("op_"+op.String(), int64(m.ops[byte(op)]))
 	}
 	sstores = int64(m.ops[byte(evm.SSTORE)])
@@ -407,11 +432,13 @@ func run(c *core.Ctx) {
 	c.Count("op_SELFDESTRUCT", selfdestructs)
 	c.Count("op_LOG", logs)
 	c.Count("op_REVERT", int64(m.ops[byte(evm.REVERT)]))
-	_ = tokenOps
 	if !o1.panicked {
 		c.Count("top_"+o1.Err, 1)
-		if o1.err != nil {
+		if o1.err != nil && !o1.truncated {
 			c.Count("top_level_failures_checked", 1)
+			if m.writes > 0 || w.Value != "0" {
+				c.Count("top_level_failures_checked_after_writes", 1)
+			}
 		}
 	} else {
 		c.Count("panics", 1)
